@@ -35,6 +35,7 @@ EventClause(c) ==
 Clause(c) ==
   IF ~c.input_unchanged THEN "input_unchanged"
   ELSE IF ~c.same_as_serial THEN "identical_for_every_nproc_and_order"
+  ELSE IF ~c.finder_same THEN "source_finder_equals_detect_then_deblend"
   ELSE LET ec == EventClause(c) IN
        IF ec # "ok" THEN ec
        ELSE IF c.contrast1 THEN (IF c.out = c.inp /\ c.dmap = <<>> THEN "ok" ELSE "contrast_one_is_identity")
